@@ -114,7 +114,8 @@ class RefEval:
         if rid in seen:
             raise CyclicRef()
         seen = seen + (rid,)
-        if self.cell(rid, 'failed_runid') is not None:
+        fr = self.cell(rid, 'failed_runid')
+        if fr is not None and self.b(fr != 0):          # 0 is the "converted target -> source" marker, not a run id
             return DIRTY
         ch = self.changed(rid)
         if ch is None:
@@ -197,11 +198,13 @@ def call_is_dirty(eng, w, R, target, callbacks=None):
     return r, fr, ptxr, psr
 
 
-def model_of(eng, w, R, ids, extra=None):
-    """concrete witness (rows, fs, edges) of the current path"""
+def model_of(eng, w, R, ids, extra=None, snap=None):
+    """concrete witness (rows, fs, edges) of the current path.  With snap=(files, deps, fs) the tables AS THEY WERE BEFORE the
+    code ran are printed (the walk itself writes: checked marks, target -> source conversion)."""
     m = eng.model(extra)
     if m is None:
         return None
+    files, deps, fs = (snap if snap is not None else (w.files, w.deps, w.fs))
 
     def val(v):
         if type(v) is LazyVal:
@@ -221,11 +224,11 @@ def model_of(eng, w, R, ids, extra=None):
             return x.as_long() if z3.is_int_value(x) else x.as_signed_long()
         return repr(v)
     out = {'runid': val(R), 'files': {}, 'fs': {}, 'deps': []}
-    for rid, row in w.files.items():
+    for rid, row in files.items():
         out['files'][rid] = {k: val(v) for k, v in row.items()}
-    for n, v in w.fs.items():
+    for n, v in fs.items():
         out['fs'][bytes(n).decode('latin-1')] = val(v)
-    for (t, s), d in w.deps.items():
+    for (t, s), d in deps.items():
         out['deps'].append([t, s, bytes(d['mode']).decode(), d['delete_me'] if isinstance(d['delete_me'], int) else val(d['delete_me'])])
     return out
 
@@ -285,6 +288,7 @@ def kernel_agreement(chk, nfiles, max_edges, goals=False, name=None, focus=None,
         w, R, ids = build_world(eng, nfiles, max_edges, **(world_kw or {}))
         st.update(w=w, R=R, ids=ids)
         snap = snapshot(w)
+        st['snap'] = snap
         r, fr, ptxr, psr = call_is_dirty(eng, w, R, ids[0])
         rv = real_verdict(eng, r)
         ref = RefEval(eng, w, snap[0], snap[1], snap[2], R)
@@ -310,7 +314,8 @@ def kernel_agreement(chk, nfiles, max_edges, goals=False, name=None, focus=None,
             chk.goal('kernel: a created-mode edge is examined', any(k == 'exists' for k, d in w.log))
             chk.goal('kernel: recursion reaches depth 2', sum(1 for k, d in w.log if k == 'sql-select-deps') >= 2)
         if rv != ov:
-            m = model_of(eng, w, R, ids)
+            # edges are chosen lazily while the code runs; rows and filesystem are taken as they were before the walk
+            m = model_of(eng, w, R, ids, snap=(st['snap'][0], w.deps, st['snap'][2]))
             return {'role': 'verdict-differs:%s-instead-of-%s' % (kind_of(rv), kind_of(ov)), 'kind': 'dbstate',
                     'real': fmt_verdict(rv), 'ref': fmt_verdict(ov),
                     'what': 'is_dirty answers %s where the documented semantics give %s' % (fmt_verdict(rv), fmt_verdict(ov)),
